@@ -26,7 +26,7 @@ m = dict(version=1, setup_cmd='./setup.sh',
          hooks=dict(guard='cargo feature `verif` (src/verif.rs, #[cfg(feature = "verif")] items in src/lib.rs and src/router.rs)',
                     enable='harness/Cargo.toml: wayfind = { path = "/repo", features = ["verif"] }',
                     baseline_off_cmd='cd /repo && cargo test --workspace --no-fail-fast --offline',
-                    source_commits=['230fa9c', 'a0b62a4'], add_only=True),
+                    source_commits=['230fa9c', 'a0b62a4', '941fad0'], add_only=True),
          engines=[dict(name='coq', path='coq/', serves_properties=[c['property_id'] for c in checks], kind_free_text='Coq 8.16 development: model, specification, theorems, checker (extracted to OCaml)'),
                   dict(name='harness', path='harness/', serves_properties=[c['property_id'] for c in checks], kind_free_text='Rust harness executing operation scripts on /repo built with the verif feature'),
                   dict(name='gen_formats', path='tools/gen_formats.py', serves_properties=['C14', 'C19'], kind_free_text='translator: Display format strings of the error enums -> coq/Gen/Formats.v, regenerated every run')],
